@@ -92,6 +92,7 @@ func VerifC15_SharedTask() {
 	vNativeReset()
 	serialA := vBool("serialA")
 	serialB := vBool("serialB")
+	redefined := vBool("redefined") // graph b first knows the ID through a placeholder task
 	inside, maxInside, runs := 0, 0, 0
 	shared := NewTask("shared", func(ctx context.Context, opt *getoptions.GetOpt, args []string) error {
 		inside++
@@ -109,6 +110,9 @@ func VerifC15_SharedTask() {
 	})
 	ga, gb := NewGraph("a"), NewGraph("b")
 	ga.AddTask(shared)
+	if redefined {
+		gb.AddTask(NewTask("shared", func(ctx context.Context, opt *getoptions.GetOpt, args []string) error { return nil }))
+	}
 	gb.AddTask(shared)
 	gb.AddTask(other)
 	if serialA {
